@@ -177,7 +177,9 @@ func c14(c *Ctx) {
 				r.Check(okIns, "C14.M1", name, "rename of a member key", pos, "insert under the new key (value looked up under the old key) + delete of the old key", "a member entry is deleted during a nick change without being re-inserted under the new key")
 				continue
 			}
-			okCh := g.PostDominatedBy(v, g.Exit, isChannelsWrite(true))
+			// the two removals may come in either order (nothing reads the sets in between): on every path through this
+			// one, the other is executed before or after it
+			okCh := g.PostDominatedBy(v, g.Exit, isChannelsWrite(true)) || g.DominatedBy(v, isChannelsWrite(true))
 			okMaybe := g.PostDominatedBy(v, g.Exit, func(x *cfgx.Vertex) bool {
 				return containsCall(info, x, func(fn *types.Func, call *ast.CallExpr) bool {
 					return fn == mdc.Obj && len(call.Args) == 1 && astx.Same(info, call.Args[0], w.recv)
@@ -196,7 +198,7 @@ func c14(c *Ctx) {
 		if _, inner := ast.Unparen(w.recv).(*ast.IndexExpr); inner {
 			continue
 		}
-		okCh := g.PostDominatedBy(v, g.Exit, isChannelsWrite(false))
+		okCh := g.PostDominatedBy(v, g.Exit, isChannelsWrite(false)) || g.DominatedBy(v, isChannelsWrite(false))
 		r.Check(okCh, "C14.M1", name, "member insert "+astx.Str(w.key)+" paired with Channels insert", pos, "session.Channels[<same channel>] = true on every path to the return",
 			"the session added to the channel's member list does not get the channel in its own Channels set (missing, or done on a different session)")
 		// the value is a fresh, non-nil status entry
@@ -225,7 +227,7 @@ func c14(c *Ctx) {
 		info := fi.Info()
 		g := c.Graph(fi)
 		v := g.VertexOf(w.node)
-		ok := g.DominatedBy(v, func(x *cfgx.Vertex) bool {
+		memberWrite := func(x *cfgx.Vertex) bool {
 			return isStmt(x, func(n ast.Node) bool {
 				for _, w2 := range c.mapWritesIn(fi, n, f.fCNicks) {
 					if w2.delete == w.delete {
@@ -234,12 +236,13 @@ func c14(c *Ctx) {
 				}
 				return false
 			})
-		})
+		}
+		ok := g.DominatedBy(v, memberWrite) || g.PostDominatedBy(v, g.Exit, memberWrite)
 		what := "Channels insert"
 		if w.delete {
 			what = "Channels removal"
 		}
-		r.Check(ok, "C14.M1", fi.Name(), what+" "+astx.Str(w.key)+" paired with the member list", c.P.Pos(w.node.Pos()), "preceded by the matching write to channel.nicks",
+		r.Check(ok, "C14.M1", fi.Name(), what+" "+astx.Str(w.key)+" paired with the member list", c.P.Pos(w.node.Pos()), "the matching write to channel.nicks on every path through it (before or after)",
 			"a session's Channels set is changed without the matching change of the channel's member list")
 		_ = info
 	}
@@ -365,7 +368,7 @@ func c14(c *Ctx) {
 				for _, w := range c.mapWritesIn(fi, x.Node, f.fNicks) {
 					if !w.delete && w.val != nil && astx.Same(info, w.val, sess) {
 						if call, ok := ast.Unparen(w.key).(*ast.CallExpr); ok && len(call.Args) == 1 {
-							if fn := astx.Callee(info, call); fn != nil && fn.Name() == "NickToLower" && (astx.Same(info, call.Args[0], as.Lhs[0]) || astx.Same(info, call.Args[0], newNick)) {
+							if fn := astx.Callee(info, call); fn != nil && fname(fn) == "NickToLower" && (astx.Same(info, call.Args[0], as.Lhs[0]) || astx.Same(info, call.Args[0], newNick)) {
 								insV, insKey = x.ID, w.key
 								return true
 							}
@@ -426,7 +429,7 @@ func c14(c *Ctx) {
 										return false
 									}
 									fn := astx.Callee(info, call)
-									return fn != nil && fn.Name() == "NickToLower"
+									return fn != nil && fname(fn) == "NickToLower"
 								}
 								if isLc(be.X) && isLc(be.Y) {
 									return true
@@ -529,7 +532,7 @@ func c14(c *Ctx) {
 				}
 				for _, fct := range g.FactsAt(wv) {
 					if call, ok := ast.Unparen(fct.Expr).(*ast.CallExpr); ok && fct.Val && fct.Tag == nil {
-						if fn := astx.Callee(info, call); fn != nil && fn.Name() == "IsValidNickname" && len(call.Args) == 1 {
+						if fn := astx.Callee(info, call); fn != nil && fname(fn) == "IsValidNickname" && len(call.Args) == 1 {
 							for _, cnd := range cands {
 								if cnd != nil && astx.Same(info, call.Args[0], cnd) {
 									okValid = true
@@ -587,7 +590,7 @@ func c14(c *Ctx) {
 								}
 							}
 							if call, isC := ast.Unparen(l.E).(*ast.CallExpr); isC && !l.Pos {
-								if fn := astx.Callee(info, call); fn != nil && fn.Name() == "IsServicesNickname" {
+								if fn := astx.Callee(info, call); fn != nil && fname(fn) == "IsServicesNickname" {
 									continue
 								}
 							}
@@ -618,12 +621,12 @@ func c14(c *Ctx) {
 		v := g.VertexOf(w.node)
 		okValid := false
 		var arg ast.Expr
-		if call, ok := ast.Unparen(w.key).(*ast.CallExpr); ok && len(call.Args) == 1 {
+		if call, ok := astx.Expand(info, w.key).(*ast.CallExpr); ok && len(call.Args) == 1 {
 			arg = call.Args[0]
 		}
 		for _, fct := range g.FactsAt(v) {
 			if call, ok := ast.Unparen(fct.Expr).(*ast.CallExpr); ok && fct.Val && fct.Tag == nil {
-				if fn := astx.Callee(info, call); fn != nil && fn.Name() == "IsValidChannel" && len(call.Args) == 1 && arg != nil && astx.Same(info, call.Args[0], arg) {
+				if fn := astx.Callee(info, call); fn != nil && fname(fn) == "IsValidChannel" && len(call.Args) == 1 && arg != nil && astx.Same(info, call.Args[0], arg) {
 					okValid = true
 				}
 			}
@@ -638,14 +641,14 @@ func c14(c *Ctx) {
 				if id, ok := n.(*ast.Ident); ok {
 					for _, d := range defsOf(info, fi.Node(), astx.Obj(info, id)) {
 						if call, ok := ast.Unparen(d).(*ast.CallExpr); d != nil && ok {
-							if fn := astx.Callee(info, call); fn != nil && fn.Name() == "ChannelLimit" {
+							if fn := astx.Callee(info, call); fn != nil && fname(fn) == "ChannelLimit" {
 								found = true
 							}
 						}
 					}
 				}
 				if call, ok := n.(*ast.CallExpr); ok {
-					if fn := astx.Callee(info, call); fn != nil && fn.Name() == "ChannelLimit" {
+					if fn := astx.Callee(info, call); fn != nil && fname(fn) == "ChannelLimit" {
 						found = true
 					}
 				}
@@ -702,7 +705,7 @@ func c14(c *Ctx) {
 				if id, ok := n.(*ast.Ident); ok {
 					for _, d := range defsOf(info, fi.Node(), astx.Obj(info, id)) {
 						if call, ok := ast.Unparen(d).(*ast.CallExpr); d != nil && ok {
-							if fn := astx.Callee(info, call); fn != nil && fn.Name() == "SessionLimit" {
+							if fn := astx.Callee(info, call); fn != nil && fname(fn) == "SessionLimit" {
 								found = true
 							}
 						}
